@@ -13,15 +13,22 @@ search:  brute-force overlap / straight-line oracle across periodic images, iden
 import ctypes, json, math, os, sys
 sys.path.insert(0, os.path.dirname(os.path.abspath(__file__)))
 from common import *
+import common
+from extract_c13 import remove_variant
 
 MODES = ["direct", "line", "tree", "linetree"]
 SCRIPT_TABLE = [0, 1, 2, 3, 0, 5, 6, 1, 2, 0, 7, 0, 4, 2, 1, 3]      # same table in Driver/C13.lean
 K_F8 = "F8:tree-prune-stale-max-radius"
 K_F17 = "F17:tree-merge-flagged-particle-lingers"
 K_F18 = "F18:linetree-prune-omits-partner-radius"
+K_LTNEG = "C13-N3:linetree-prune-negative-dt"
 K_F4 = "F4:sorted-removal-with-tree"
 K_F19 = "F19:merge-two-massless-nan"
 K_F19H = "F19:hardsphere-two-massless-nan"
+
+
+VARIANT = ["0"] * 5      # RmVariant flags, extracted from particle.c in run()
+VARIANT_NAMES = ["rangeFirst", "lastResetsNActive", "lastDeletesTree", "sortedTreeErrFirst", "unsortedClampNActive"]
 
 
 def script_out(salt, a, b):
@@ -62,7 +69,7 @@ def gen_spec(rng, idx, thorough=False):
                    else rng.uniform(-L / 2, L / 2) for _ in range(3)]
         else:
             cen = [rng.uniform(-L / 4, L / 4) for _ in range(3)]
-        shape = rng.choice(["chain", "clump", "clump", "star"])
+        shape = rng.choice(["chain", "clump", "clump", "star", "flyby"] if collision in ("line", "linetree") else ["chain", "clump", "clump", "star", "star", "flyby"])
         pos = []
         d = [rng.normal() for _ in range(3)]
         dn = math.sqrt(sum(x * x for x in d)) or 1.0
@@ -92,15 +99,48 @@ def gen_spec(rng, idx, thorough=False):
             pos.append(p)
         vs = rng.loguniform(1e-2, 1e1) * r0
         app = rng.choice([1, 1, 1, -1, 0])
+        flyv = None
+        if shape == "flyby":
+            # pairs that pass (or just miss) each other *during* the step: closest approach at fraction f of the
+            # step, impact parameter b; at both ends of the step they are (mostly) far apart
+            dtabs = 0.1     # the spec's |dt| is one of 0.01, 0.05, 0.1, 1.0: the fraction below is rescaled in gen_spec
+            flyv = []
+            pos = []
+            for k in range(n):
+                if k % 2 == 0:
+                    p = [cen[a] + rng.normal() * 3 * r0 for a in range(3)]
+                    pos.append(p)
+                    flyv.append([0.3 * vs * rng.normal() for _ in range(3)])
+                else:
+                    rs = radii[k - 1] + radii[k]
+                    wdir = [rng.normal() for _ in range(3)]
+                    wn = math.sqrt(sum(x * x for x in wdir)) or 1.0
+                    wdir = [x / wn for x in wdir]
+                    e = [rng.normal() for _ in range(3)]
+                    dot = sum(e[a] * wdir[a] for a in range(3))
+                    e = [e[a] - dot * wdir[a] for a in range(3)]
+                    en = math.sqrt(sum(x * x for x in e)) or 1.0
+                    b = rs * (rng.uniform(0, 0.95) if rng.chance(0.7) else rng.uniform(1.05, 1.6))
+                    f = rng.uniform(-0.3, 1.3)
+                    travel = max(rs, 1e-3 * r0) * rng.uniform(2, 30)        # |dv|*|dt|
+                    # d(tau) = d_end - tau*dv ; closest at tau* = f*dt  =>  d_end = b_vec + f*dt*dv ; (dt*dv) = travel*wdir
+                    d_end = [e[a] / en * b + f * travel * wdir[a] for a in range(3)]
+                    pos.append([pos[-1][a] - d_end[a] for a in range(3)])
+                    flyv.append(("rel", [travel * wdir[a] for a in range(3)]))   # v_{k-1} - v_k = this / dt
         for k in range(n):
             rel = [pos[k][a] - cen[a] for a in range(3)]
             rn = math.sqrt(sum(x * x for x in rel))
             v = [(-app * vs * rel[a] / rn if rn > 0 else 0.0) + 0.3 * vs * rng.normal() for a in range(3)]
             if rng.chance(0.1):
                 v = [0.0, 0.0, 0.0]
+            if flyv is not None:
+                v = flyv[k]
             m = rng.loguniform(1e-3, 1e3) if rng.chance(0.9) else 0.0
             hid += rng.randint(1, 50)
-            parts.append(dict(id=hid, x=pos[k][0], y=pos[k][1], z=pos[k][2], vx=v[0], vy=v[1], vz=v[2], m=m, r=radii[k]))
+            if flyv is not None and isinstance(v, tuple):
+                parts.append(dict(id=hid, x=pos[k][0], y=pos[k][1], z=pos[k][2], vx=v, vy=0.0, vz=0.0, m=m, r=radii[k]))
+            else:
+                parts.append(dict(id=hid, x=pos[k][0], y=pos[k][1], z=pos[k][2], vx=v[0], vy=v[1], vz=v[2], m=m, r=radii[k]))
     for _ in range(rng.randint(0, 3)):          # isolated fillers
         hid += rng.randint(1, 50)
         parts.append(dict(id=hid, x=rng.uniform(-L / 2.2, L / 2.2), y=rng.uniform(-L / 2.2, L / 2.2), z=rng.uniform(-L / 2.2, L / 2.2),
@@ -122,6 +162,7 @@ def gen_spec(rng, idx, thorough=False):
             if p["x"] > 0.49 * L:
                 p["x"] -= 1e-3 * L
         seenpos.add((p["x"], p["y"], p["z"]))
+    parts_unshuffled = list(parts)
     rng.shuffle(parts)
     n = len(parts)
     integ = "none"
@@ -134,10 +175,21 @@ def gen_spec(rng, idx, thorough=False):
                 seed=rng.randint(0, 2 ** 32 - 1), parts=parts, use_step=int(rng.chance(0.6)),
                 t0=rng.choice([0.0, 1.5, 7.25]), omega=(rng.choice([1.0, 0.37]) if boundary == "shear" else 0.0),
                 r_after_add=0)
+    for k, p in enumerate(parts_unshuffled):
+        if isinstance(p["vx"], tuple):
+            prev = parts_unshuffled[k - 1]
+            rel = p["vx"][1]
+            p["vx"], p["vy"], p["vz"] = [prev[a] - rel[i] / spec["dt"] for i, a in enumerate(("vx", "vy", "vz"))]
     if spec["collision"] in ("tree", "linetree"):
         spec["ks"] = 0 if rng.chance(0.9) else 1        # sorted removal + tree is rejected by the code (F4)
     if spec["gravity"] == "tree" and spec["ks"] == 1 and rng.chance(0.8):
         spec["ks"] = 0
+    if rng.chance(0.3):
+        spec["mcv"] = rng.loguniform(1e-3, 1e2)        # minimum_collision_velocity (hard-sphere clamp)
+    if collision == "direct" and integ == "none" and spec["gravity"] == "none" and rng.chance(0.12):
+        spec["nvar"] = 1                                # variational particles: removals are refused
+        spec["use_step"] = 0
+        spec["res"] = ["script", spec["seed"] % 1000]
     if integ != "none":
         spec["use_step"] = 0
     if spec["ks"] == 1 and (spec["gravity"] == "tree" or collision in ("tree", "linetree")):
@@ -187,6 +239,8 @@ def make_sim(W, spec):
     sim.rand_seed = spec["seed"]
     if "mcv" in spec:
         sim.minimum_collision_velocity = spec["mcv"]
+    if spec.get("nvar"):
+        sim.add_variation()
     return sim
 
 
@@ -259,7 +313,7 @@ def run_real(W, spec, res, steps=1):
             W.clib.reb_collision_search(ctypes.byref(sim))
         per_step.append(dict(pre=pre, calls=calls[n0:], post=pstate(sim), t=sim.t))
     return dict(sim=sim, calls=calls, hsrec=hsrec, state=pstate(sim), seed=sim.rand_seed, N=sim.N,
-                N_active=sim.N_active, t=sim.t, dtl=sim.dt_last_done, tree=bool(sim._tree_root),
+                N_active=sim.N_active, nvar=sim.N_var, t=sim.t, dtl=sim.dt_last_done, tree=bool(sim._tree_root),
                 maxr=(sim.max_radius[0], sim.max_radius[1]), per_step=per_step, cb=cb)
 
 
@@ -268,10 +322,10 @@ def ring_tokens(spec, tab):
     return [str(v) for v in spec["nghost"]] + [d2h(v) for g in tab for v in g]
 
 
-def f_line(spec, mode, state, tab, tree, res, dtl, t, ninner, given=()):
+def f_line(spec, mode, state, tab, tree, res, dtl, t, ninner, given=(), nvar=0):
     hyb = 1 if spec["integrator"] in ("mercurius", "trace") else 0
     toks = ["F", mode, str(spec["ks"]), str(int(tree)), str(hyb),
-            str(-1 if spec.get("n_active") is None else spec["n_active"]), "0", str(spec["seed"]), d2h(dtl), d2h(t)]
+            str(-1 if spec.get("n_active") is None else spec["n_active"]), str(nvar), str(spec["seed"])] + VARIANT + [d2h(dtl), d2h(t)]
     if res[0] == "script":
         toks += ["script", str(res[1])]
     elif res[0] == "hs":
@@ -413,8 +467,10 @@ def scenario(c, W, exe_lines, spec, tag, stats):
     A = run_real(W, spec, ("zero",))
     simA = A["sim"]
     tab = gb_table(W, simA)
+    nvar = A["nvar"]
     stateA = A["state"]
-    n = len(stateA)
+    stateR = stateA[:len(stateA) - nvar]      # the real particles (variational ones follow them in the array)
+    n = len(stateR)
     ninner = 1 if spec["integrator"] in ("mercurius", "trace") else n
     stats["N"][min(n, 16)] = stats["N"].get(min(n, 16), 0) + 1
     if A["N"] != len(spec["parts"]):
@@ -428,7 +484,7 @@ def scenario(c, W, exe_lines, spec, tag, stats):
 
     # ---- search oracle on the real code (does not use the model)
     line = col in ("line", "linetree")
-    orc = oracle_pairs(spec, stateA, tab, A["dtl"], line) if spec["integrator"] == "none" and spec["boundary"] != "shear" else None
+    orc = oracle_pairs(spec, stateR, tab, A["dtl"], line) if spec["integrator"] == "none" and spec["boundary"] != "shear" else None
     if orc is not None:
         repset = {}
         for (p1, p2, gh) in reported:
@@ -452,7 +508,8 @@ def scenario(c, W, exe_lines, spec, tag, stats):
                     if col == "tree" and not h_holds(stateA, A["maxr"]):
                         key_f = K_F8
                     if col == "linetree":
-                        key_f = K_F18
+                        # two independent causes: with dt<0 the drift terms of the pruning radius are negative
+                        key_f = K_F18 if A["dtl"] >= 0 else K_LTNEG
                     c.violation(key_f, what, dict(spec=spec, pair=[i, j], image=im, reported=[list(r[:2]) for r in reported]))
                     stats["missed"][key_f] = stats["missed"].get(key_f, 0) + 1
             elif cls == "no" and key in repset:
@@ -470,28 +527,59 @@ def scenario(c, W, exe_lines, spec, tag, stats):
 
     # ---- tie 1: search + shuffle  (model line index recorded)
     checks = []
+    ring = [tabhex[(i + 1) * 9 + (j + 1) * 3 + (k + 1)] for (i, j, k) in images(spec)]
     if col in ("direct", "line"):
         li = len(exe_lines)
-        exe_lines.append(f_line(spec, col, stateA, tab, A["tree"], ("zero",), A["dtl"], A["t"], ninner))
+        exe_lines.append(f_line(spec, col, stateA, tab, A["tree"], ("zero",), A["dtl"], A["t"], ninner, nvar=nvar))
 
         def chk1(out, li=li):
             m = parse_f(out[li])
             got = [(p1, p2, g) for (p1, p2, g, _, _, _) in m["calls"]]
-            if got != reported or m["seed"] != A["seed"]:
-                c.corr_break("%s search + shuffle: model hands %d pairs / seed %d, code %d / %d (%s)" % (
-                    col, len(got), m["seed"], len(reported), A["seed"], tag),
-                    dict(spec=spec, model=got[:8], code=reported[:8]))
+            if sorted(got) != sorted(reported):
+                c.corr_break("%s search: model finds %d pairs, code hands over %d — not the same multiset (%s)" % (
+                    col, len(got), len(reported), tag),
+                    dict(spec=spec, model=sorted(got)[:8], code=sorted(reported)[:8]))
                 stats["tie_fail"] += 1
+            elif got != reported or m["seed"] != A["seed"]:
+                # same pairs, other order: the property quantifies over all orders, so this is not a break
+                stats["shuffle_order_differs"] += 1
             stats["tie_search"] += 1
         checks.append(chk1)
-        given_needed = False
     else:
-        # tree walks: order of discovery is the tree's; recover the pre-shuffle list with the rand_r model
         li_r = len(exe_lines)
         exe_lines.append("R %d %d" % (spec["seed"], len(reported)))
         li_s = len(exe_lines)
         exe_lines.append(s_line(spec, "direct" if col == "tree" else "lineall", stateA, tab, A["dtl"], n))
-        given_needed = True
+
+        def chk1t(out):
+            news = [int(x) for x in out[li_r].split()]
+            if news[-1] != A["seed"]:
+                stats["shuffle_order_differs"] += 1
+            ms = parse_s(out[li_s])
+            mset = set(ms)
+            rset = set(reported)
+            if len(rset) != len(reported):
+                c.corr_break("%s search: duplicate entry in the pending list (%s)" % (col, tag), dict(spec=spec))
+                stats["tie_fail"] += 1
+            # soundness of the leaf test: everything the tree walk reports passes the model's predicate
+            if not rset <= mset:
+                c.corr_break("%s search: code reports a pair the model's leaf predicate rejects (%s)" % (col, tag),
+                             dict(spec=spec, extra=[list(map(str, x)) for x in rset - mset][:5]))
+                stats["tie_fail"] += 1
+            # completeness under hypothesis H: every pair of the model is found from at least one end
+            for (a, b, g) in mset - rset:
+                im = img_of.get(g)
+                mirror = None
+                if im is not None:
+                    mirror = (b, a, tabhex[(-im[0] + 1) * 9 + (-im[1] + 1) * 3 + (-im[2] + 1)])
+                if mirror is None or mirror not in rset:
+                    if col == "tree" and h_holds(stateA, A["maxr"]) and spec["boundary"] != "shear":
+                        c.corr_break("tree search misses pair (%d,%d) of the model's direct search although max_radius bounds hold (%s)" % (a, b, tag),
+                                     dict(spec=spec, pair=[a, b]))
+                        stats["tie_fail"] += 1
+                    stats["tree_pruned_pairs"] += 1
+            stats["tie_search"] += 1
+        checks.append(chk1t)
 
     # ---- phase B
     kinds = ["script", "script", "script", "merge", "merge", "hs", "halt"]
@@ -531,53 +619,14 @@ def scenario(c, W, exe_lines, spec, tag, stats):
     if kind == "hs":
         check_hs(c, spec, B, res, stats)
 
-    # ---- tie 2: driver + resolver
-    def model_given(out):
-        news = [int(x) for x in out[li_r].split()]
-        if news[-1] != A["seed"]:
-            c.corr_break("rand_r model: seed after %d draws is %d, code has %d" % (len(reported), news[-1], A["seed"]), dict(spec=spec))
-            stats["tie_fail"] += 1
-            return None
-        pre = unshuffle(news[:-1], reported)
-        ms = parse_s(out[li_s])
-        # the model's all-ordered-pairs set must contain what the tree found (soundness of the leaf test) …
-        mset = set((a, b, g) for (a, b, g) in ms)
-        if not set(pre) <= mset:
-            c.corr_break("%s search: code reports a pair the model's leaf predicate rejects (%s)" % (col, tag),
-                         dict(spec=spec, extra=[list(map(str, x)) for x in set(pre) - mset][:5]))
-            stats["tie_fail"] += 1
-        if len(set(pre)) != len(pre):
-            c.corr_break("%s search: duplicate entry in the pending list" % col, dict(spec=spec))
-        # … and under hypothesis H every pair of the model is found from at least one end
-        for (a, b, g) in mset - set(pre):
-            im = img_of.get(g)
-            mirror = None
-            if im is not None:
-                mg = tabhex[(-im[0] + 1) * 9 + (-im[1] + 1) * 3 + (-im[2] + 1)]
-                mirror = (b, a, mg)
-            if mirror is None or mirror not in set(pre):
-                if col == "tree" and h_holds(stateA, A["maxr"]) and spec["boundary"] != "shear":
-                    c.corr_break("tree search misses pair (%d,%d) of the model's direct search although max_radius bounds hold (%s)" % (a, b, tag),
-                                 dict(spec=spec, pair=[a, b]))
-                    stats["tie_fail"] += 1
-                stats["tree_pruned_pairs"] += 1
-        stats["tie_search"] += 1
-        given = []
-        for (a, b, g) in pre:
-            given.append((a, b, tabhex.index(g)))
-        return given
-
-    # the F line for phase B needs the pre-shuffle list in tree modes: two-pass → closure returns a follow-up line
+    # ---- tie 2: driver + resolver, on the order in which the code processed the entries (phase A, same seed)
     def chk2_line(out):
-        if given_needed:
-            g = model_given(out)
-            if g is None:
-                return None
-            # ghost-box index in the *ring* order: the driver's `given` indexes the ring selected by ghostRing
-            ring = [tabhex[(i + 1) * 9 + (j + 1) * 3 + (k + 1)] for (i, j, k) in images(spec)]
-            g2 = [(a, b, ring.index(tabhex[gi])) for (a, b, gi) in g]
-            return f_line(spec, "given", stateA, tab, B["tree"], res, A["dtl"], A["t"], ninner, g2)
-        return f_line(spec, col, stateA, tab, B["tree"], res, A["dtl"], A["t"], ninner)
+        try:
+            given = [(a, b, ring.index(g)) for (a, b, g) in reported]
+        except ValueError:
+            c.corr_break("pending entry with a ghost box outside the ring (%s)" % tag, dict(spec=spec))
+            return None
+        return f_line(spec, "ordered", stateA, tab, B["tree"], res, A["dtl"], A["t"], ninner, given, nvar=nvar)
 
     def chk2(outline):
         m = parse_f(outline)
@@ -588,18 +637,28 @@ def scenario(c, W, exe_lines, spec, tag, stats):
         elif m["N"] != B["N"] or m["N_active"] != B["N_active"]:
             bad = "N / N_active after the step: model %d/%d code %d/%d" % (m["N"], m["N_active"], B["N"], B["N_active"])
         else:
+            scale = [max([abs(p[1 + k]) for p in B["state"] if p[1 + k] == p[1 + k]] + [1e-300]) for k in range(9)]
+            for grp in ((0, 1, 2), (3, 4, 5)):
+                mx = max(scale[k] for k in grp)
+                for k in grp:
+                    scale[k] = mx
             for i, (mp, cp) in enumerate(zip(m["ps"], B["state"])):
                 ch = tuple(d2h(v) for v in cp[1:])
                 if mp[0] != cp[0]:
                     bad = "particle %d: identity model %d code %d" % (i, mp[0], cp[0]); break
-                if mp[1]:   # flagged: y is NaN in the code
-                    if not (cp[2] != cp[2]) or mp[2][:1] + mp[2][2:] != ch[:1] + ch[2:]:
-                        bad = "particle %d: flagged in the model, code y=%r" % (i, cp[2]); break
-                elif mp[2] != ch:
-                    if kind == "hs" and all(abs(h2d(a) - b) <= 8 * 2.3e-16 * max(abs(b), 1e-300) or a == d2h(b) for a, b in zip(mp[2], cp[1:])):
-                        stats["hs_ulp"] += 1
+                if mp[1] and not (cp[2] != cp[2]):
+                    bad = "particle %d: flagged in the model, code y=%r" % (i, cp[2]); break
+                for k in range(9):
+                    if mp[2][k] == ch[k] or (mp[1] and k == 1):
                         continue
-                    bad = "particle %d (id %d): state differs, model %s code %s" % (i, cp[0], mp[2], ch); break
+                    a, b = h2d(mp[2][k]), cp[1 + k]
+                    # conservation is a "to rounding error" property: a harmless re-association must not fire
+                    if a == a and b == b and abs(a - b) <= 64 * 2.3e-16 * scale[k]:
+                        stats["state_ulp_diffs"] += 1
+                        continue
+                    bad = "particle %d (id %d) field %d: model %s code %s" % (i, cp[0], k, mp[2][k], ch[k]); break
+                if bad:
+                    break
         if bad:
             c.corr_break("post-search driver (%s, %s, %s): %s (%s)" % (col, path, kind, bad, tag),
                          dict(spec=spec, res=list(res), model_calls=got[:6], code_calls=callsB[:6]))
@@ -613,6 +672,12 @@ def check_accounting(c, spec, stateA, B, callsB, kind, path, stats):
     ids0 = [p[0] for p in stateA]
     alive = set(ids0)
     removed = []
+    if spec.get("nvar"):
+        # variational particles present: every removal is refused with an error, nothing may change
+        if [p[0] for p in B["state"]] != ids0:
+            c.violation("nvar-removal-not-refused", "removal with variational particles changed the particle array", dict(spec=spec, res=kind))
+        stats["nvar_cases"] = stats.get("nvar_cases", 0) + 1
+        return
     if path == "sorted+tree":
         # reb_simulation_remove_particle refuses (after shifting the array and decrementing N): F4 territory
         fin_ids = [p[0] for p in B["state"]]
@@ -659,6 +724,8 @@ def sums(state):
 
 
 def check_merge(c, spec, stateA, B, path, stats):
+    if path == "sorted+tree":
+        return      # refused configuration (error reported by reb_simulation_remove_particle): see K_F4
     nm = 0
     seen = set()
     for rec, call in zip(B["hsrec"], B["calls"]):
@@ -747,9 +814,7 @@ def check_hs(c, spec, B, res, stats):
 
 
 # ----------------------------------------------------------------------------- histories
-def history(c, W, rng, idx, stats):
-    """several leapfrog steps with the built-in merge: conservation and hash accounting at every
-    step boundary (no gravity, so mass / momentum / centre of mass are exactly conserved quantities)"""
+def gen_history_spec(rng, idx):
     spec = gen_spec(rng, idx)
     spec["integrator"] = "leapfrog"
     spec["gravity"] = "none"
@@ -767,9 +832,15 @@ def history(c, W, rng, idx, stats):
     spec["dt"] = abs(spec["dt"]) * 0.2
     spec["omega"] = 0.0
     spec.pop("res", None)
+    spec.pop("nvar", None)
     if spec["collision"] in ("tree", "linetree"):
         spec["ks"] = 0          # sorted removal with a tree is covered by scenario() (F4)
-    nsteps = 6
+    return spec
+
+
+def history(c, W, spec, nsteps, stats):
+    """several leapfrog steps with the built-in merge: conservation and hash accounting at every
+    step boundary (no gravity, so mass / momentum / centre of mass are exactly conserved quantities)"""
     R = run_real(W, spec, ("merge",), steps=nsteps)
     path = ("sorted" if spec["ks"] else "unsorted") + ("+tree" if R["tree"] else "")
     ids_alive = set(p["id"] for p in spec["parts"])
@@ -838,6 +909,23 @@ def run(c):
     d = build()
     rebound = use_scratch_rebound(d)
     W = World(rebound)
+    # at most two replay files per violation key (a seeded bug typically fails hundreds of scenarios)
+    raw_violation = c.violation
+    seen_keys = {}
+
+    def violation(key, what, replay):
+        seen_keys[key] = seen_keys.get(key, 0) + 1
+        if seen_keys[key] <= 2:
+            return raw_violation(key, what, replay)
+        return False
+    c.violation = violation
+    c.cov["violation_keys"] = seen_keys
+    flags, counts, problems = remove_variant(common.REPO)
+    c.cov["extraction"] = {"remove_particle_markers": counts, "variant": flags}
+    if flags is None or problems:
+        c.broken.append("extraction: reb_simulation_remove_particle no longer has the structure the model mirrors: " + "; ".join(problems))
+        flags = flags or {k: 0 for k in VARIANT_NAMES}
+    VARIANT[:] = [str(flags[k]) for k in VARIANT_NAMES]
     c.prove(["RV.Props.C13"])
     exe = lean_exe("drv_c13")
     c.cov["rule"] = ("clusters (chain / clump / star) of 2-8 mutually overlapping particles, radii equal / spread over 3 decades / partly zero / one big, "
@@ -856,11 +944,23 @@ def run(c):
     stats = dict(N={}, dropped_by_boundary=0, missed={}, oracle_yes=0, oracle_edge=0, tie_fail=0, tie_search=0, tie_driver=0,
                  resolver={}, calls=0, paths={}, accounted=0, merges=0, worst_mass=0.0, worst_mom=0.0, worst_com=0.0,
                  merge_across_boundary=0, bounces=0, worst_hs_mom=0.0, worst_hs_energy=0.0, hs_ulp=0, tree_pruned_pairs=0,
-                 histories=0, left_box=0, massless_merges=0)
-    ncases = 2400 if c.thorough else 360
+                 histories=0, left_box=0, massless_merges=0, shuffle_order_differs=0, state_ulp_diffs=0)
+    ncases = 6000 if c.thorough else 600
     lines = []
     pend = []
     specs = [("corpus/" + f, s) for f, s in corpus_specs()]
+    replay = None
+    if "--replay" in sys.argv:
+        # ./check C13 --replay replays/C13-<seed>-<k>.json : run exactly the recorded scenario again
+        rp = json.load(open(sys.argv[sys.argv.index("--replay") + 1]))
+        replay = rp.get("replay", rp)
+        ncases = 0
+        specs = []
+        if "spec" in replay and "steps" not in replay:
+            sp = dict(replay["spec"])
+            if "res" in replay and isinstance(replay["res"], list):
+                sp["res"] = replay["res"]
+            specs = [("replay", sp)]
     for i in range(ncases):
         specs.append(("gen%d" % i, gen_spec(c.rng.fork(), i, c.thorough)))
     for tag, spec in specs:
@@ -890,9 +990,11 @@ def run(c):
         else:
             for o, ch in zip(out2, back):
                 ch(o)
-    nh = 240 if c.thorough else 40
+    nh = 0 if replay is not None else (800 if c.thorough else 80)
     for i in range(nh):
-        history(c, W, c.rng.fork(), i, stats)
+        history(c, W, gen_history_spec(c.rng.fork(), i), 6, stats)
+    if replay is not None and "steps" in replay:
+        history(c, W, replay["spec"], replay["steps"], stats)
     for k in ("worst_mass", "worst_mom", "worst_com", "worst_hs_mom", "worst_hs_energy"):
         stats[k] = float("%.3g" % stats[k])
     stats["N"] = {str(k): v for k, v in sorted(stats["N"].items())}
